@@ -51,6 +51,9 @@ theorem C10_frame (top : Goal St K → St → Strm St K) (l1 l2 : Lz St K) :
 theorem C10_mplus_states (top : Goal St K → St → Strm St K) (s : Strm St K) (l : Lz St K) (b : St) :
     MemS top b (Strm.mplus s l) ↔ MemS top b s ∨ MemL top b l := mem_mplus_iff
 
+section FDLeak
+variable [Mode]
+
 /-- NO LEAK BETWEEN CLAUSES, for constraint programs (tree, CLP(FD), CLP(Z) atoms; nested conjunction /
     conde / fresh): every (unpoisoned) state the engine delivers for `conde { p, q }` — posted after any
     common prefix `pre` — describes exactly the solutions of `pre` followed by a path of `p`, or of `pre`
@@ -69,6 +72,8 @@ theorem C10_no_leak {ord : Order} (ho : OrderOK ord) (dfs : Call → State → S
   simp only [FProg.paths, List.mem_flatMap, List.mem_map] at hpth
   obtain ⟨x, hx, y, hy, rfl⟩ := hpth
   exact ⟨x, hx, y, hy, hsem⟩
+
+end FDLeak
 
 section Examples
 private def defs0 : Unit → Nat → Nat × Goal Nat Unit := fun _ a => (a, .fail)
